@@ -201,7 +201,8 @@ theorem readMessage_progress {c : Codec} {f : TextFormat} {a : BinArchive} {r r'
       · cases h
       · cases h
 
-/-- The `while reader.tell() < archive.size()` loop (`:76-85`). -/
+set_option linter.unusedVariables false in
+/-- The `while reader.tell() < archive.size()` loop (`:76-85`); `hm` feeds the termination proof. -/
 def fromLoop (c : Codec) (f : TextFormat) (a : BinArchive) (pos : Nat) (entries : List (Str × Str)) :
     Res (List (Str × Str)) :=
   if pos < a.size then
